@@ -1017,6 +1017,11 @@ class OdeSystem(object):
 
         self.__fix_dt_dir(tf, self.__t[self.counter])
 
+        # the slope cached by the integrator at the end of its last step was evaluated before this call: with constants
+        # edited in place (or anything else the right-hand side depends on changed) it is no longer the slope at the starting point
+        if getattr(self.integrator, "final_rhs", None) is not None:
+            self.integrator.final_rhs = None
+
         if D.ar_numpy.abs(self.dt) > D.ar_numpy.abs(tf - self.__t[self.counter]):
             self.dt = D.ar_numpy.abs(tf - self.__t[self.counter]) * 0.5
 
